@@ -435,7 +435,8 @@ fn check_placed(cx: &mut Ctx, rep: &mut Report, d: Dialect, di: usize, p: &Place
                 let exact = over.len() == 1 && over[0].span.start == *a && over[0].span.end == a + n;
                 if !exact {
                     ok = false;
-                    // lex_plural_digit: `<ascii alnum>s` followed by a non-ASCII letter is cut off as a word of its own
+                    // FC06a (fixed by 7202fd4; the class names its return): lex_plural_digit cut `<ascii alnum>s` off a
+                    // word whose next character is a non-ASCII letter
                     let wc: Vec<char> = w.chars().collect();
                     let plural_split = wc.len() > 2
                         && wc[0].is_ascii_alphanumeric()
@@ -539,6 +540,21 @@ fn random_letters(r: &mut Rng) -> Vec<char> {
             }
         }
         _ => {}
+    }
+    v
+}
+
+/// `<ASCII letter>s<non-ASCII Latin letter><letters>`: the shape lex_plural_digit (`a's`, `0s`, `Bs`) looks at — one
+/// word, not `<letter>s` + the rest (FC06a, fixed by 7202fd4)
+fn plural_prefix_word(r: &mut Rng) -> Vec<char> {
+    let first = (if r.chance(1, 3) { b'A' } else { b'a' } + r.below(26) as u8) as char;
+    let mut v = vec![first, 's', *r.pick(LATIN_EXTRA)];
+    for _ in 0..r.below(9) {
+        v.push(if r.chance(1, 6) { *r.pick(LATIN_EXTRA) } else { (b'a' + r.below(26) as u8) as char });
+    }
+    if r.chance(1, 8) {
+        v = upper(&v);
+        v[1] = 's';
     }
     v
 }
@@ -657,6 +673,41 @@ fn mini_case(rep: &mut Report, entries_in: &[(String, Option<Dialect>)], d: Dial
             let line = format!("L {} | {} | {} | {} | {}", dcode(Some(d)), cps(&run.src), spans_str(&run.words), entries_str(&entries), fuzzy_str(&fz));
             rep.case(&line, &lints_line(&run.lints));
             rep.count(&format!("mini:{}", if run.lints.is_empty() { "no_lint" } else { "lints" }));
+            // the property on the mini dictionary, token by token (ground truth: the entries words_iter lists, own key
+            // recipe): a token spelt like an entry of the dialect (up to the apostrophe style) is not reported; a token
+            // whose key no entry has, or only an entry of another dialect, is reported with exactly its span
+            let dc = dcode(Some(d));
+            let norm = |w: &[char]| -> Vec<char> { w.iter().map(|c| norm_char(*c)).collect() };
+            for (a, b) in &run.words {
+                let w = &run.src[*a..*b];
+                let k = key_of(w);
+                let same_key: Vec<&(Vec<char>, u8)> = entries.iter().filter(|(c, _)| key_of(c) == k).collect();
+                let is_rep = reported.contains(&(*a, *b));
+                if same_key.iter().any(|(c, dl)| norm(c) == norm(w) && (*dl == 0 || *dl == dc)) {
+                    rep.count("mini:token_spelt_like_an_entry");
+                    if w.iter().any(|c| norm_char(*c) != *c) || same_key.iter().any(|(c, _)| c.iter().any(|x| norm_char(*x) != *x)) {
+                        rep.count("mini:token_or_entry_with_typographic_apostrophe");
+                    }
+                    if is_rep {
+                        rep.fail("mini_listed_reported", format!("mini dictionary: the word token {:?} at {}..{} is spelt like an entry of the {} dictionary and is reported", s_of(w), a, b, dname(d)), inp.clone());
+                    }
+                } else if same_key.is_empty() {
+                    rep.count("mini:token_unlisted");
+                    if !is_rep {
+                        rep.fail("mini_unlisted_not_reported", format!("mini dictionary: no entry has the key of the word token {:?} at {}..{} and there is no lint with that span", s_of(w), a, b), inp.clone());
+                    }
+                } else if same_key.iter().all(|(_, dl)| *dl != 0 && *dl != dc) {
+                    rep.count("mini:token_other_dialect");
+                    if !is_rep {
+                        rep.fail("mini_other_dialect_not_reported", format!("mini dictionary: the word token {:?} at {}..{} is listed for another dialect only and is not reported in {} text", s_of(w), a, b, dname(d)), inp.clone());
+                    }
+                }
+            }
+            for l in &run.lints {
+                if !run.words.contains(&(l.span.start, l.span.end)) {
+                    rep.fail("lint_outside_words", format!("mini dictionary: the spelling lint {}..{} is not the span of a word token", l.span.start, l.span.end), inp.clone());
+                }
+            }
             // the property on the mini dictionary: suggestions are entries of the dialect (up to the first letter)
             for l in &run.lints {
                 for s in &l.suggestions {
@@ -675,7 +726,7 @@ fn mini_case(rep: &mut Report, entries_in: &[(String, Option<Dialect>)], d: Dial
 }
 
 fn random_mini(r: &mut Rng) -> (Vec<(String, Option<Dialect>)>, Dialect, String) {
-    const STEMS: &[&str] = &["ab", "abc", "ba", "bab", "cab", "a", "b", "abba", "don't", "ab's", "o'b", "Ab", "aB", "AB", "Bab", "é", "éa", "Éa", "aß", "İb", "ab-ba", "a b", "ǅa", "ﬁb", "ſa"];
+    const STEMS: &[&str] = &["ab", "abc", "ba", "bab", "cab", "a", "b", "abba", "don't", "ab's", "o'b", "Ab", "aB", "AB", "Bab", "é", "éa", "Éa", "aß", "İb", "ab-ba", "a b", "ǅa", "ﬁb", "ſa", "don’t", "ab’s", "o’b", "Ab’s"];
     let n = 1 + r.below(6);
     let mut entries = vec![];
     for _ in 0..n {
@@ -700,12 +751,13 @@ fn random_mini(r: &mut Rng) -> (Vec<(String, Option<Dialect>)>, Dialect, String)
             text.push_str(r.s(&[" ", " ", ", ", ". ", "-", "\n"]));
         }
         let mut w: String = if r.chance(2, 3) { entries[r.below(entries.len())].0.clone() } else { r.s(STEMS).to_string() };
-        match r.below(8) {
+        match r.below(9) {
             0 => w = w.to_uppercase(),
             1 => w = s_of(&cap1(&chars(&w))),
             2 => w = w.to_lowercase(),
             3 => w = w.replace('\'', "’"),
             4 => w = s_of(&mutate(r, &chars(&w))),
+            5 => w = w.replace('’', "'"),
             _ => {}
         }
         text.push_str(&w);
@@ -1223,7 +1275,9 @@ fn main() {
             break;
         }
         guard += 1;
-        let (w, form): (Vec<char>, &'static str) = if r.chance(2, 3) {
+        let (w, form): (Vec<char>, &'static str) = if r.chance(1, 10) {
+            (plural_prefix_word(&mut r), "letter + s before a non-ASCII letter")
+        } else if r.chance(2, 3) {
             let base = &words[r.below(nwords)];
             if !base.iter().all(|c| is_latin_letter(*c)) {
                 continue;
@@ -1309,7 +1363,7 @@ fn main() {
 
 /// a broken build produces failures by the thousand, each costing a fuzzy search: a few hundred are evidence enough
 fn enough(rep: &mut Report) -> bool {
-    let n: u64 = rep.dist.iter().filter(|(k, _)| k.starts_with("fail:") && *k != "fail:f24_multi_token_entry_reported" && *k != "fail:unlisted_split_after_plural_s").map(|(_, v)| *v).sum();
+    let n: u64 = rep.dist.iter().filter(|(k, _)| k.starts_with("fail:") && *k != "fail:f24_multi_token_entry_reported").map(|(_, v)| *v).sum();
     if n > 400 {
         rep.extra.insert("stopped_early".into(), json!("more than 400 new oracle failures: the remaining sweeps were cut short"));
         true
